@@ -4,6 +4,8 @@ package h19
 import (
 	"time"
 
+	_ "go.nanomsg.org/mangos/v3/transport/all"
+
 	"go.nanomsg.org/mangos/v3"
 	"go.nanomsg.org/mangos/v3/zzverif/verif"
 	"go.nanomsg.org/mangos/v3/zzverif/vp"
@@ -400,4 +402,65 @@ func VH19c_device() {
 	verif.Assert(mangos.Device(nil, nil) != nil, lab+"/both-nil-accepted")
 	a.Close()
 	b.Close()
+}
+
+var tranAddrs = []string{"tcp://127.0.0.1:5555", "tls+tcp://127.0.0.1:5556", "ws://127.0.0.1:5557/x", "wss://127.0.0.1:5558/x", "inproc://opt", "ipc:///tmp/verif.sock"}
+var tranOpts = []string{mangos.OptionMaxRecvSize, mangos.OptionNoDelay, mangos.OptionKeepAlive, mangos.OptionKeepAliveTime, mangos.OptionTLSConfig,
+	mangos.OptionReconnectTime, mangos.OptionMaxReconnectTime, mangos.OptionDialAsynch, mangos.OptionLocalAddr, "NO-SUCH-OPTION", mangos.OptionReadQLen}
+
+// VH19d_transports: option contract of the dialers and listeners of every transport.
+func VH19d_transports() {
+	ti := verif.Param("tran", 0)
+	addr := tranAddrs[ti]
+	sock := vp.New("pair")
+	var o optObj
+	where := "dialer"
+	if verif.Choice("obj", 2) == 0 {
+		d, err := sock.NewDialer(addr, nil)
+		if err != nil {
+			verif.Fail("C19/transport/" + addr + "/new-dialer")
+			return
+		}
+		o = d
+	} else {
+		l, err := sock.NewListener(addr, nil)
+		if err != nil {
+			verif.Fail("C19/transport/" + addr + "/new-listener")
+			return
+		}
+		o = l
+		where = "listener"
+	}
+	name := tranOpts[verif.Choice("opt", len(tranOpts))]
+	vt_ := verif.Choice("vtype", len(typeNames))
+	val := mkValue(vt_)
+	lab := "C19/transport/" + addr + "/" + where + "/" + name + "/" + typeNames[vt_]
+	before, gerr := o.GetOption(name)
+	verif.Assert(gerr == nil || gerr == mangos.ErrBadOption, lab+"/get-error-kind")
+	err := o.SetOption(name, val)
+	verif.Reach("set-returned")
+	verif.Assert(isContractErr(err), lab+"/set-error-kind")
+	if name == "NO-SUCH-OPTION" {
+		verif.Assert(err == mangos.ErrBadOption, lab+"/unknown-name-is-bad-option")
+		verif.Assert(gerr == mangos.ErrBadOption, lab+"/unknown-name-get-is-bad-option")
+	}
+	if name == mangos.OptionReadQLen {
+		// a socket-level option: an endpoint may pass Get up to its socket, but cannot set it
+		verif.Assert(err == mangos.ErrBadOption, lab+"/socket-option-settable-on-endpoint")
+	}
+	if gerr == nil && err != mangos.ErrBadOption {
+		if kindOf(before) >= 0 && kindOf(before) != vt_ {
+			verif.Assert(err == mangos.ErrBadValue, lab+"/wrong-type-not-bad-value")
+		}
+		after, gerr2 := o.GetOption(name)
+		verif.Assert(gerr2 == nil, lab+"/get-after-set")
+		if gerr2 == nil && kindOf(before) >= 0 && name != mangos.OptionNoDelay && name != mangos.OptionKeepAlive {
+			if err == nil {
+				verif.Assert(sameValue(val, after), lab+"/get-returns-set-value")
+			} else {
+				verif.Assert(sameValue(before, after), lab+"/rejected-set-changed-value")
+			}
+		}
+	}
+	sock.Close()
 }
